@@ -97,7 +97,8 @@ def jobs(tier):
                 (6, 3, 3), (4, 1, 1), (8, 4, 4), (8, 2, 4)]
         for d, r, w in grid:
             for mc in (False, True):
-                j = E1("checks.c15", "WideFifoH", {"depth": d, "rw": r, "ww": w, "maxc": mc, "reduced": d * max(r, w) > 16})
+                caps = {"max_states": 6000} if d >= 8 else {}     # depth 8: bounded (reported as not exhaustive)
+                j = E1("checks.c15", "WideFifoH", {"depth": d, "rw": r, "ww": w, "maxc": mc, "reduced": d * max(r, w) > 16}, **caps)
                 (big if d >= 4 else small).append(j)
         big.append(E1("checks.c15", "WideFifoH", {"depth": 4, "rw": 2, "ww": 2, "width": 2}))
         small.append(E1("checks.c15", "WideFifoH", {"depth": 2, "rw": 1, "ww": 2, "width": 2, "reduced": False}))
